@@ -17,7 +17,8 @@ Cases == ndJsonDeserialize(IOEnv.TRACEFILE)
 VARIABLES k, verdict
 vars == <<k, verdict>>
 
-FlagNames == {"names", "producers", "dwarf", "xform", "stable", "synth", "strict"}
+\* "late": preserve_code_transform was set after generate_dwarf (DWARF generation on, code transform not preserved)
+FlagNames == {"names", "producers", "dwarf", "xform", "stable", "synth", "strict", "late"}
 Ran(f) == {f[x] : x \in DOMAIN f}
 
 Row(s) == <<s.id, s.name, s.digest>>
@@ -69,6 +70,7 @@ PairVerdict(a, b) ==
   ELSE IF OnlyDiffer(a, b, "dwarf") /\ Rows(b) # Without(a, IsDebug) THEN <<"dwarf-switch-changes-more-than-its-sections", a.flags>>
   ELSE IF OnlyDiffer(a, b, "xform") /\ Rows(b) # Rows(a) THEN <<"preserve-code-transform-changes-the-binary", a.flags>>
   ELSE IF OnlyDiffer(a, b, "stable") /\ Rows(b) # Rows(a) THEN <<"only-stable-features-changes-the-binary", a.flags>>
+  ELSE IF OnlyDiffer(a, b, "late") /\ Without(b, IsDebug) # Without(a, IsDebug) THEN <<"setter-order-changes-more-than-the-debug-sections", a.flags>>
   ELSE IF OnlyDiffer(a, b, "strict") /\ Rows(b) # Rows(a) THEN <<"strict-validate-changes-the-binary", a.flags>>
   ELSE IF OnlyDiffer(a, b, "synth") /\ ~SynthOK(a, b) THEN <<"synthetic-names-switch-does-more-or-less-than-naming-anonymous-items", a.flags>>
   ELSE <<"ok">>
